@@ -631,6 +631,11 @@ def check(ctx):
     if ctx.tier == 'thorough':
         _owner_package(ctx)
     _generation_id(ctx)
+    # shared with C15.2: container name <-> instance name mapping
+    # (appcfg.app_name / _fmt_unique_name / gen_uniqueid)
+    from . import c15
+    with ctx.shared({'C15': 'C13.1'}):
+        c15._unique(ctx)
     acm = ctx.index.get_class(ACM, 'AppCfgMgr')
     sync, term, graph, loop, cvar, ksync = _kinds(ctx, acm)
     _handover(ctx, acm, term)
